@@ -13,7 +13,8 @@ def run(tier, seed):
     n3 = [gen_heap.history_program(i) for i in gen_heap.histories(3, rng, 3000 if quick else 60000)]
     n5 = [gen_heap.history_program(i) for i in gen_heap.histories(6, rng, 500 if quick else 10000)]
     laws = list(gen_heap.law_programs())
-    fams = [("h2", n2, 0, 0, ("top",)), ("h3", n3, 0, 0, ("top",)), ("h6", n5, 0, 1, ("top", "fn0")), ("law", laws, 0, 0, ("top",))]
+    cm = list(gen_heap.copy_matrix())
+    fams = [("cm", cm, 0, 0, ("top", "fn0")), ("h2", n2, 0, 0, ("top",)), ("h3", n3, 0, 0, ("top",)), ("h6", n5, 0, 1, ("top", "fn0")), ("law", laws, 0, 0, ("top",))]
     rep, preds, progs = core_replay.family_check(
         PROP, tier, seed, fams,
         rule="histories: sequences of 2 / 3 / 6 actions over a %d-action alphabet on three variables (constructors, aliasing, "
@@ -21,7 +22,7 @@ def run(tier, seed):
              "assignment, insert/remove, reverse, sort, clear, fill, resize), each action guarded by try/catch, all three "
              "variables printed after every action (%s of the 2-action space, 3- and 6-action samples); laws: ==, !=, <, <=, >, "
              ">= over all ordered pairs of a 22-value pool, map insert/get/remove over all ordered pairs of 17 hashable keys in "
-             "maps of size 1 and 21, sort of every permutation of <=4 numbers / 3 strings, map order through "
+             "maps of size 1 and 21, the nesting x {alias, copy, deep_copy} x mutation-site matrix (every nest of lists/tuples/maps of depth <=3 around a mutable container), sort of every permutation of <=4 numbers / 3 strings, map order through "
              "insert/remove/extend/index-assign/sort" % (len(gen_heap.ACTIONS), "a sample" if quick else "all"),
         assumptions=["KotoCore.tla's store is the abstract heap: lists/maps are references, tuples/strings/ranges values",
                      "orderings of containers and NaN comparisons are outside the guide (discarded)"])
